@@ -54,8 +54,9 @@ Lemma templates_valid : forall t, In t templates -> tp_complete t = true ->
   memN (tp_id t) tpl_failing = false ->
   valid_node schema0 exempt (tp_ty t) (tp_node t) = true.
 Proof.
-  intros t Hin Hc Hnf. pose proof (not_failing_ok tp_id tpl_ok templates t Hin Hnf) as E.
-  unfold tpl_ok in E. rewrite Hc in E. exact E.
+  intros t Hin Hc Hnf. unfold tpl_failing in Hnf.
+  apply (not_failing_ok tp_id tpl_ok templates t Hin) in Hnf.
+  unfold tpl_ok in Hnf. rewrite Hc in Hnf. exact Hnf.
 Qed.
 
 (** the top level of every accepted template, spelled out *)
@@ -90,7 +91,7 @@ Lemma decls_admissible : forall r, In r decls -> memN (dc_id r) known_decl = fal
   (order_checked T = true -> decl_ok (flatten (ct_cm T)) (dc_child r) (dc_succ r) = true).
 Proof.
   intros r Hin Hk Hnf.
-  pose proof (not_failing_ok dc_id decl_ok_row decls r Hin Hnf) as H.
+  unfold decl_failing in Hnf. apply (not_failing_ok dc_id decl_ok_row decls r Hin) in Hnf. rename Hnf into H.
   unfold decl_ok_row in H. rewrite Hk in H. cbn [orb] in H. unfold decl_row_ok in H.
   destruct (lookup_type schema0 (dc_ty r)) as [T|]; [|discriminate]. exists T. split; auto.
   intros Hoc. rewrite Hoc in H. exact H.
